@@ -193,6 +193,9 @@ template<typename A>
 void AuxHashMap<A>::mustAdd(uint32_t slotNo, uint8_t value) {
   const int32_t index = find(entries.data(), lgAuxArrInts, lgConfigK, slotNo);
   const uint32_t entry_pair = HllUtil<A>::pair(slotNo, value);
+  if (entry_pair == hll_constants::EMPTY) { // would count an entry but leave its cell free
+    throw std::invalid_argument("AuxHashMap entry for slotNo 0 must have a value");
+  }
   if (index >= 0) {
     throw std::invalid_argument("Found a slotNo that should not be there: SlotNo: "
                                 + std::to_string(slotNo) + ", Value: " + std::to_string(value));
